@@ -32,6 +32,8 @@ PROFILES = [
 
 
 def run(ck, prog):
+    from props.common import check_memos
+    ck.attempt(check_memos, ck, prog)
     ck.explanation = (
         "Each profile function is evaluated symbolically for w = 2k and w = 2k+1 (k a non-negative integer atom): the "
         "flank test reduces to a constant, the pads become affine normal forms, the window loop is summarised for one "
@@ -162,6 +164,12 @@ def _guard(ck, prog, f, construct, tag, wparam=None):
         callee = prog.resolve_call(f, first.value)
         ok = callee is g and len(first.value.args) == 1 and isinstance(first.value.args[0], ast.Name) \
             and first.value.args[0].id == wparam
+    # and nothing is returned before the guard has run
+    if ok:
+        early = [n for n in ast.walk(f.node) if isinstance(n, ast.Return) and n.lineno < first.lineno]
+        if early:
+            ok = False
+            first = early[0]
     ck.ob("MUST-window-guard", construct, ok,
           expected="self.__check_window_to_length(%s) dominates every use of the window size" % wparam,
           found=unparse(first)[:100] if first is not None else None, slot=tag + ":guard", where=f.loc(first) if first is not None else f.loc(),
